@@ -142,7 +142,8 @@ CLAIMS = {
   "text": "tags_partition (in every reachable state of the client model - any number of callers, any interleaving of alloc/enqueue/deliver/fail/"
           "fan-out/return - free tags, cached slots and calls in progress are a permutation of the pool), outstanding_tags_nodup, tags_recycled "
           "(nothing leaks: unbounded calls), own_reply (a frame wakes exactly the pending call carrying its tag, with its payload), "
-          "unknown_tag_fails. Correspondence: real Clnt vs a scripted peer (1..64 callers, random reply orders and kinds, arbitrary reply "
+          "unknown_tag_fails. shared_tag_replies_in_issue_order (the receiver gives a reply to the oldest pending call with its tag: calls of the Tag interface, which share a tag, complete in issue order). "
+          "Correspondence: real Clnt vs a scripted peer (1..64 callers, random reply orders and kinds, arbitrary reply "
           "segmentation, 70 000 consecutive calls); the observed schedule is replayed through the model and the accounting compared.",
   "note": TB + "Error mapping (Rerror / wrong type) and the Tag interface are checked by the harness oracle, not theorems. Channels modelled as FIFO lists.",
  },
